@@ -36,6 +36,10 @@ class ConclusionSelector(LogicalOperator, ABC):
             self._conclusion_.update(conclusions)
             self.concluded_before[not self._is_false_].add(required_output)
 
+    def update_cache(self, values: Dict[int, HashedValue], cache=None) -> None:
+        # conclusions are selected while the operands are evaluated, a row served from a result cache would carry none.
+        return
+
     def _reset_only_my_cache_(self) -> None:
         super()._reset_only_my_cache_()
         self.concluded_before = {True: SeenSet(), False: SeenSet()}
